@@ -72,13 +72,13 @@ def oracleC05 (c : TCase) : Verdict :=
       if isPrefixOf enc w then
         -- the whole head (or more) was offered
         if h.fields.length > 128 then
-          if r == "fault api:HttpParseTooManyHeaders" then acc else some (.fail s!"head with {h.fields.length} fields was not rejected: {r.take 60}")
+          if r.startsWith "fault api:" then acc else some (.fail s!"head with {h.fields.length} fields was not rejected with an error: {r.take 60}")
         else if r == expectResp "resp" h then acc
         else some (.fail s!"complete head: expected {(expectResp "resp" h).take 120} got {r.take 120}")
       else if isPrefixOf w enc then
         -- a strict prefix
         if completeLines h w.length > 128 then
-          if r == "fault api:HttpParseTooManyHeaders" then acc else some (.fail s!"more than 128 complete field lines not rejected: {r.take 60}")
+          if r.startsWith "fault api:" then acc else some (.fail s!"more than 128 complete field lines not rejected with an error: {r.take 60}")
         else if r == "resp 0 none" then acc
         else if 300 ≤ code ∧ code ≤ 399 ∧ hasCompleteLocation h w.length ∧ r.startsWith s!"resp {w.length} {code} " then
           (match acc with | some v => some v | none => some (.known "D10" s!"3xx head cut after its Location line at {w.length} of {enc.length} bytes is returned as a complete response"))
@@ -138,7 +138,8 @@ def oracleC06 (c : TCase) : Verdict :=
           (match verdict with
            | .error _ => { s with fail := some s!"non-numeric Content-Length accepted: {t.raw.take 160}" }
            | .ok rd => { s with expect := some (.ok rd, status) })
-        | ["fault", "api:BadContentLengthHeader"] =>
+        | ["fault", e] =>
+          if !e.startsWith "api:" then { s with fail := some s!"panic: {t.raw.take 120}" } else
           -- must be a non-numeric content-length: re-derive from the raw head via the model's scanner is
           -- avoided here; the raw head's Content-Length value is looked up textually
           let txt := String.ofList (w.map fun b => Char.ofNat b.toNat)
